@@ -4,10 +4,10 @@ From QV Require Import model.Base model.Lang model.Types model.Tir model.Ceval m
 
 (* The FULL statement -- a whole program is accepted iff it is well typed in the declarative system -- is a theorem for
    the direction "ill-typed is never accepted" on the expression fragment of literals, local variables, objects named by
-   id, `this`, property reads `o.p`, subscripts `o[i]`, casts `e as T`, unary, binary (incl. && ||) and conditional operators
-   in any nesting (C05_accepted_expressions_are_typed, by induction over expressions through the builder's state monad; at
-   the end of this file).  For calls, arrays, assignments, implicit this-properties, enum and type names, and statements
-   what is proved is that each typing DECISION the builder takes coincides with the table; the
+   id, `this`, property reads `o.p`, subscripts `o[i]`, casts `e as T`, unary, binary (incl. && ||) and conditional operators,
+   list expressions, method calls, Math.max / Math.min, qsTr, console.*, and assignments to `let` variables, writable properties
+   and list elements, in any nesting (C05_accepted_expressions_are_typed, by induction over expressions through the builder's
+   state monad; at the end of this file).  For implicit this-properties, enum and type names, and statements what is proved is that each typing DECISION the builder takes coincides with the table; the
    check then decides whole programs one by one (exhaustive operator table, generated programs, single-edit mutants)
    through the model/code correspondence and the specification's verdict. *)
 
@@ -72,8 +72,10 @@ Print Assumptions C05_common_type.
 (* Whole expressions.  `Typed E G e d` (proofs/TypingSound.v) is the declarative typing relation: its rules are the tables
    spec_unary / spec_binary / common_concrete of spec/Typing.v, one rule per node kind, with the folder's one documented
    exception (null == null); o.p needs a readable property p of the class of o (or of an ancestor), o[i] a list and an integer index,
-   e as T one of the documented casts.  Every expression of the fragment `frag` (literals, locals, objects by id, this, o.p, o[i],
-   e as T, unary, binary incl. && ||, ?: in any nesting) that the translator accepts -- in any state reached from the one the typing context is read from -- has a
+   e as T one of the documented casts; [e1, ...] one common element type; o.m(args) the first method of that name whose parameters
+   accept the arguments; x = e a `let` variable and an assignable value, o.p = e a writable property (on an object, or on a gadget
+   held in a variable), x[i] = e a list variable.  Every expression of the fragment `frag` (all expression forms except function
+   literals, and names that resolve to an implicit this-member, an enum variant or a type) that the translator accepts -- in any state reached from the one the typing context is read from -- has a
    derivation whose type descriptor is the descriptor of the operand the translator returns. *)
 Theorem C05_accepted_expressions_are_typed : forall E env s0, envwf (List.length (bs_locals s0)) env ->
   forall e, frag E env e = true -> forall s a s', Rel s0 s -> walk_rvalue E env e s = (V a, s') ->
@@ -105,3 +107,14 @@ Example C05_typed_example_members :
   frag E0 [] e1 = true /\ (exists a s', walk_rvalue E0 [] e1 bstate0 = (V a, s') /\ operand_tdesc a = DConcrete T_INT) /\
   frag E0 [] e2 = true /\ fst (walk_rvalue E0 [] e2 bstate0) = F.
 Proof. cbv zeta. split; [reflexivity|]. split; [eexists; eexists; split; [vm_compute; reflexivity|reflexivity]|]. split; reflexivity. Qed.
+
+(* ... calls, list expressions and assignments: a.compute(Math.max(a.i, 3)) : int, [a.s, "h", qsTr("i")] : list of QString, a.i = b.i : void are in
+   the fragment and accepted; a.compute(a.s) (a QString for an int parameter) is in the fragment and rejected *)
+Example C05_typed_example_calls :
+  let e4 := ECall (EMember (EIdent "a") "compute") [ECall (EMember (EIdent "Math") "max") [EMember (EIdent "a") "i"; EInt 3]] in
+  let e5 := EArray [EMember (EIdent "a") "s"; EStr [104%N]; ECall (EIdent "qsTr") [EStr [105%N]]] in
+  let e6 := EAssign (EMember (EIdent "a") "i") (EMember (EIdent "b") "i") in
+  let e7 := ECall (EMember (EIdent "a") "compute") [EMember (EIdent "a") "s"] in
+  map (fun e => (frag E0 [] e, match walk_rvalue E0 [] e bstate0 with (V a, _) => Some (operand_tdesc a) | _ => None end)) [e4; e5; e6; e7] =
+  [(true, Some (DConcrete T_INT)); (true, Some (DConcrete (TList T_STRING))); (true, Some (DConcrete T_VOID)); (true, None)].
+Proof. vm_compute. reflexivity. Qed.
